@@ -30,9 +30,28 @@
      yields outputs whose concatenation has non-decreasing stamps and denotes
      f (den s1 t) (den s2 t) on [t0, F].
    - C05_binary_chunking: two chunkings of the same two signals never disagree
-     at any instant of the common domain. *)
+     at any instant of the common domain.
+
+   Proved for the other online operations (models DenseOnlineFold.v =
+   once/historically/always_operation.py, since_operation.py, the unary
+   point-wise operations, constant and variable; DenseOnlineWin.v =
+   once_timed_operation.py, historically_timed_operation.py; all compared with
+   the operation classes on every run by harness/c05.py; integer stamps):
+   - C05_once_timed / C05_historically_timed: a signal that starts at 0, fed in
+     any batch sequence (a batch may repeat the last sample already sent, with
+     any value): no update() raises, the concatenated outputs have
+     non-decreasing stamps inside [0, last stamp] and denote rhoZ of
+     once[a,b] / historically[a,b] at every tick of it; C05_timed_chunking.
+   - C05_once / C05_historically: running maximum / minimum, any cutting.
+   - C05_since / C05_since_chunking: the outputs cover [t0, F) and carry rhoZ of
+     the unbounded since.
+   - C05_unary: the point-wise operations, sample by sample.
+   What is still not proved is the composition: the update visitor that feeds
+   the outputs of one operation to the next (memo per update, constants),
+   predicates, since_timed (a composition of the above), +inf stamps. *)
 From Coq Require Import List ZArith Lia.
-From RV Require Import Val Syntax Rho Dense DenseSem DenseLaws ExtZ DenseMerge DenseMergeCorrect DenseOnlineMerge DenseOnlineMergeCorrect.
+From RV Require Import Val Syntax Rho Dense DenseSem DenseLaws ExtZ DenseMerge DenseMergeCorrect DenseOnlineMerge DenseOnlineMergeCorrect
+  DenseSinceCorrect DenseOnlineFold DenseOnlineFoldCorrect DenseOnlineWin DenseOnlineWinCorrect.
 Import ListNotations.
 Local Open Scope Z_scope.
 
@@ -100,6 +119,101 @@ Theorem C05_binary_chunking :
                 den_opt (concat outs) t = den_opt (concat outs') t.
 Proof. exact @bin_run_chunking. Qed.
 Print Assumptions C05_binary_chunking.
+
+(* ---- the other online operations (models DenseOnlineFold.v, DenseOnlineWin.v; see the header of this file) ---- *)
+
+(* bounded once / historically: any batch sequence (a batch may repeat the last sample already sent), signal starting at 0 *)
+Theorem C05_once_timed :
+  forall (VS : Val) (AR : Arith VS) (pk : formula -> formula -> pkind) (tend : Z) (nb ne : nat) (s : dsig) (bs : list dsig),
+    (nb <= ne)%nat -> dsorted s -> s <> [] -> start s = 0 -> feeds1 [] bs s ->
+    exists st outs,
+      once_timed_run (owin_init (zb nb) (zb ne)) bs = Some (st, outs) /\
+      wsorted (concat outs) /\
+      (forall a v, In (a, v) (concat outs) -> 0 <= a <= lastT s) /\
+      (forall t, 0 <= t <= lastT s -> den_opt (concat outs) t = Some (rhoZ AR pk [s] tend (OnceT nb ne (Var 0)) t)).
+Proof. exact @once_timed_online_rhoZ. Qed.
+Print Assumptions C05_once_timed.
+
+Theorem C05_historically_timed :
+  forall (VS : Val) (AR : Arith VS) (pk : formula -> formula -> pkind) (tend : Z) (nb ne : nat) (s : dsig) (bs : list dsig),
+    (nb <= ne)%nat -> dsorted s -> s <> [] -> start s = 0 -> feeds1 [] bs s ->
+    exists st outs,
+      hist_timed_run (hwin_init (zb nb) (zb ne)) bs = Some (st, outs) /\
+      wsorted (concat outs) /\
+      (forall a v, In (a, v) (concat outs) -> 0 <= a <= lastT s) /\
+      (forall t, 0 <= t <= lastT s -> den_opt (concat outs) t = Some (rhoZ AR pk [s] tend (HistT nb ne (Var 0)) t)).
+Proof. exact @hist_timed_online_rhoZ. Qed.
+Print Assumptions C05_historically_timed.
+
+Theorem C05_timed_chunking :
+  forall (VS : Val) (b e : Z) (s : dsig) (bs bs' : list dsig),
+    0 <= b -> b <= e -> dsorted s -> s <> [] -> start s = 0 -> feeds1 [] bs s -> feeds1 [] bs' s ->
+    (exists st outs st' outs',
+      once_timed_run (owin_init b e) bs = Some (st, outs) /\ once_timed_run (owin_init b e) bs' = Some (st', outs') /\
+      forall t, 0 <= t <= lastT s -> den_opt (concat outs) t = den_opt (concat outs') t) /\
+    (exists st outs st' outs',
+      hist_timed_run (hwin_init b e) bs = Some (st, outs) /\ hist_timed_run (hwin_init b e) bs' = Some (st', outs') /\
+      forall t, 0 <= t <= lastT s -> den_opt (concat outs) t = den_opt (concat outs') t).
+Proof.
+  intros VS b e s bs bs' H0 H1 H2 H3 H4 H5 H6. split.
+  - exact (once_timed_online_chunking b e s bs bs' H0 H1 H2 H3 H4 H5 H6).
+  - exact (hist_timed_online_chunking b e s bs bs' H0 H1 H2 H3 H4 H5 H6).
+Qed.
+Print Assumptions C05_timed_chunking.
+
+(* unbounded once / historically: running maximum / minimum from the start of the signal, any cutting *)
+Theorem C05_once :
+  forall (VS : Val) (s : dsig) (bs : list dsig),
+    dsorted s -> s <> [] -> concat bs = s ->
+    exists st outs,
+      once_run Z once_init bs = Some (st, outs) /\ map fst (concat outs) = map fst s /\ dsorted (concat outs) /\
+      (forall t, start s <= t -> den_opt (concat outs) t = Some (zmax (den s) (start s) t)) /\
+      (forall t, t < start s -> den_opt (concat outs) t = None) /\ fprev st = zmax (den s) (start s) (lastT s).
+Proof. exact @once_run_correct. Qed.
+Print Assumptions C05_once.
+
+Theorem C05_historically :
+  forall (VS : Val) (s : dsig) (bs : list dsig),
+    dsorted s -> s <> [] -> concat bs = s ->
+    exists st outs,
+      hist_run Z hist_init bs = Some (st, outs) /\ map fst (concat outs) = map fst s /\ dsorted (concat outs) /\
+      (forall t, start s <= t -> den_opt (concat outs) t = Some (zmin (den s) (start s) t)) /\
+      (forall t, t < start s -> den_opt (concat outs) t = None) /\ fprev st = zmin (den s) (start s) (lastT s).
+Proof. exact @hist_run_correct. Qed.
+Print Assumptions C05_historically.
+
+(* unbounded since: the outputs cover [t0, F) (F excluded) and carry the dense-time since value *)
+Theorem C05_since :
+  forall (VS : Val) (AR : Arith VS) (pk : formula -> formula -> pkind) (s1 s2 : dsig) (bs : list (dsig * dsig)) (tend : Z),
+    dsorted s1 -> dsorted s2 -> s1 <> [] -> s2 <> [] ->
+    concat (map fst bs) = s1 -> concat (map snd bs) = s2 ->
+    exists st outs,
+      since_run Z Z.ltb since_init bs = Some (st, outs) /\
+      (forall t, Z.max (start s1) (start s2) <= t < Z.min (lastT s1) (lastT s2) ->
+         den_opt (concat outs) t = Some (rhoZ AR pk [s1; s2] tend (Since (Var 0) (Var 1)) t)).
+Proof. exact @since_run_rhoZ. Qed.
+Print Assumptions C05_since.
+
+Theorem C05_since_chunking :
+  forall (VS : Val) (s1 s2 : dsig) (bs bs' : list (dsig * dsig)),
+    dsorted s1 -> dsorted s2 -> s1 <> [] -> s2 <> [] ->
+    concat (map fst bs) = s1 -> concat (map snd bs) = s2 -> concat (map fst bs') = s1 -> concat (map snd bs') = s2 ->
+    exists st outs st' outs',
+      since_run Z Z.ltb since_init bs = Some (st, outs) /\ since_run Z Z.ltb since_init bs' = Some (st', outs') /\
+      forall t, Z.max (start s1) (start s2) <= t < Z.min (lastT s1) (lastT s2) -> den_opt (concat outs) t = den_opt (concat outs') t.
+Proof. exact @since_run_chunking. Qed.
+Print Assumptions C05_since_chunking.
+
+(* unary point-wise operations (not, abs, unary minus, sqrt, exp, ln): sample by sample, whatever the cutting; f v = None models a raising sample *)
+Theorem C05_unary :
+  forall (VS : Val) (f : V -> option V) (g : V -> V) (s : dsig) (bs : list dsig),
+    concat bs = s -> (forall a v, In (a, v) s -> f v = Some (g v)) ->
+    exists outs,
+      unary_run Z f unary_init bs = Some (unary_init, outs) /\ concat outs = gmap g s /\
+      map fst (concat outs) = map fst s /\ (dsorted s -> dsorted (concat outs)) /\
+      (forall t, den_opt (concat outs) t = option_map g (den_opt s t)).
+Proof. exact @unary_run_correct. Qed.
+Print Assumptions C05_unary.
 
 (* two chunkings of the same signals (one sample at a time with a repeated boundary sample / everything at once): different
    sample lists per call, the same step function *)
